@@ -553,6 +553,10 @@ class ObjectPairs(Suite):
                dict(cls='AutoL', a1={'columns': ['b', 'a']}, a2={'columns': ['a', 'b']}),
                dict(cls='AutoL', a1={'columns': ['a', 'a']}, a2={'columns': ['a']}),
                dict(cls='AutoL', a1={'columns': ['a'], 'limit': 20}, a2={'columns': ['a'], 'limit': 30}),
+               # inside a list or mapping argument: a nested parameter object against the string that spells its text
+               dict(cls='AutoA', a1={'a': [{'__auto__': 'AutoB', 'args': {'x': 2}}]}, a2={'a': ['AutoB(x=2)']}),
+               dict(cls='AutoA', a1={'a': {'step': {'__auto__': 'AutoB', 'args': {'x': 2}}}}, a2={'a': {'step': 'AutoB(x=2)'}}),
+               dict(cls='AutoV', a1={'steps': [{'__auto__': 'AutoA', 'args': {'a': 1}}]}, a2={'steps': ['AutoA(a=1)']}),
                # the second object is a copy of the first - whose text was taken - with the argument changed afterwards
                dict(cls='AutoA', a1={'a': 0.1, 'b': 2}, a2={'a': 10.0, 'b': 2}, copied=True),
                dict(cls='AutoRidge', a1={'alpha': 0.1}, a2={'alpha': 10.0}, copied=True),
@@ -633,6 +637,83 @@ class ObjectPairs(Suite):
         return repr(case)
 
 
+class LocationsAfterRunning(Suite):
+    """two chains that differ in a parameter of an upstream task - kept in memory only, or stored - are built in one
+    process, their tasks are run, forced and run again: the location every task object reports stays the one it had at
+    construction, the two computations stay apart, and a later process finds each value at its own location.
+    Runtime check only."""
+    name = 'locations_after_running'
+    model = ''
+
+    def gen(self, rng, tier):
+        return [dict(up=up, values=vs, recompute=rc) for up in ('memory', 'json') for vs in ([1, 2], [0, False], [2, 2, 3])
+                for rc in ('force_task', 'force_chain', 'reset')]
+
+    def run_impl(self, case):
+        from pathlib import Path
+        from taskchain import Config
+        from .. import pipeline as pl
+        from ..suites_chain import K, P
+        classes = [dict(K(0, 'Sampler', params=[P('size')], data=case['up']), name='sampler'),
+                   dict(K(1, 'Stats', meta_inputs=[{'cls': 0}]), name='stats', runargs=['sampler']),
+                   dict(K(2, 'Report', meta_inputs=[{'cls': 1}]), name='report')]
+        with pl.workspace(dict(classes=classes, files={})) as (d, mod):
+            def chains():
+                return [Config(Path('data'), name=f'c{i}', data={'tasks': [f'{mod}.*'], 'size': v}).chain() for i, v in enumerate(case['values'])]
+            loc = lambda ch: {n: [t.name_for_persistence, pl.rel_path(t.data_path) if t.has_data or True else None] for n, t in ch.tasks.items()}
+            cs = chains()
+            out = {'built': [loc(c) for c in cs]}
+            out['values'] = [{n: t.value for n, t in c.tasks.items()} for c in cs]
+            out['after_run'] = [loc(c) for c in cs]
+            for c in cs:
+                if case['recompute'] == 'force_task':
+                    for t in c.tasks.values():
+                        t.force()
+                elif case['recompute'] == 'force_chain':
+                    c.force('sampler', recompute=True)
+                else:
+                    for t in c.tasks.values():
+                        t.reset_data()
+            out['values2'] = [{n: t.value for n, t in c.tasks.items()} for c in cs]
+            out['after_rerun'] = [loc(c) for c in cs]
+            fresh = chains()
+            out['fresh'] = [loc(c) for c in fresh]
+            out['fresh_has'] = [{n: bool(t.has_data) for n, t in c.tasks.items() if t.data_path is not None} for c in fresh]
+            out['fresh_values'] = [{n: t.value for n, t in c.tasks.items()} for c in fresh]
+            return out
+
+    def oracle(self, case, obs):
+        if 'unexpected_exception' in obs:
+            return f'unexpected exception {obs["unexpected_exception"]}: {obs["text"]}'
+        import json as js
+        for stage in ('after_run', 'after_rerun', 'fresh'):
+            for i, (b, a) in enumerate(zip(obs['built'], obs[stage])):
+                if b != a:
+                    n = next(k for k in b if b[k] != a.get(k))
+                    return (f'{case}: task {n} of chain {i} reports the location {a.get(n)} {stage.replace("_", " ")}; when the chain '
+                            f'was built it was {b[n]}')
+        for i, vi in enumerate(case['values']):
+            for j in range(i + 1, len(case['values'])):
+                same = js.dumps(vi) == js.dumps(case['values'][j]) and type(vi) is type(case['values'][j])
+                for n in obs['built'][i]:
+                    if (obs['built'][i][n][0] == obs['built'][j][n][0]) != same:
+                        return (f'{case}: task {n} has the key {obs["built"][i][n][0]} with size={vi!r} and {obs["built"][j][n][0]} '
+                                f'with size={case["values"][j]!r}')
+        for stage in ('values2', 'fresh_values'):
+            if js.dumps(obs[stage], sort_keys=True) != js.dumps(obs['values'], sort_keys=True):
+                return f'{case}: the values are {obs[stage]} ({stage}); the first computation gave {obs["values"]}'
+        for i, h in enumerate(obs['fresh_has']):
+            if not all(h.values()):
+                return f'{case}: a new chain of config {i} finds no stored result for {[n for n, x in h.items() if not x]}'
+        return None
+
+    def nontrivial(self, case, obs):
+        return 'built' in obs
+
+    def key(self, case):
+        return repr(case)
+
+
 class Keys(ChainBuild):
     """whole chains: keys of the model against the implementation and against the frozen key scheme"""
     name = 'chain_keys'
@@ -641,7 +722,7 @@ class Keys(ChainBuild):
 
 class C03(Prop):
     pid = 'C03'
-    suites = [Pairs(), ObjectPairs(), ChainPairs(), Keys()]
+    suites = [Pairs(), ObjectPairs(), ChainPairs(), Keys(), LocationsAfterRunning()]
     known_classes = {'unescaped-quote': quote_class}
     assumptions = ['no collision of the hash on the key texts of the chains compared (hypothesis of the chain theorem; '
                    'SHA-256 truncated to 128 bits)',
